@@ -1,0 +1,16 @@
+//go:build verif
+
+package lint
+
+// VerifGate is installed by verification harnesses (build tag "verif") to observe, and between
+// lock-free points to order, the framework's steps. It is nil unless a harness sets it.
+var VerifGate func(point string, name string)
+
+func verifGate(point string, name string) {
+	if g := VerifGate; g != nil {
+		g(point, name)
+	}
+}
+
+// VerifPoint lets the root package report its own steps through the same gate.
+func VerifPoint(point string, name string) { verifGate(point, name) }
